@@ -254,7 +254,7 @@ func suiteC13(c *ctx) {
 			rc.Stream = genValidStream(r, api)
 		}
 		if api == "zlib" && i%2 == 0 {
-			d := &DataSpec{Gen: "text", Seed: r.U64(), N: r.Pick([]int{10, 300, 20000})}
+			d := &DataSpec{Gen: "text", Seed: r.U64(), N: r.Pick([]int{4, 10, 300, 20000})}
 			rc.Dict = d
 			w := &WCase{Set: Setting{API: "zlib", Level: r.Range(-2, 9), Dict: d}, Datas: []DataSpec{{Gen: "text", Seed: d.Seed, N: r.Pick([]int{50, 2000, 40000})}}}
 			w.Ops = []Op{{K: "w", N: w.Datas[0].N}, {K: "c"}}
